@@ -8,12 +8,14 @@ C15 driver.  One request = one pipeline run:
 
 * source   `I:<ev>,<ev>,…`  iterator of `Result`: `t5` = `Ok(triple 5)`, `q5.2` = `Ok(quad 5 in graph 2)`,
                             `E7` = `Err(payload 7)`;  `I:_` empty; `J:` instead of `I:` = iterator of quads
+           `C:<step>;…` / `D:<step>;…`  the harness's synthetic chunked source of triples / quads, steps as for `P:`
            `P:<step>;<step>;…`  observed `parse_step` outcomes of a Rio parser: `o:<items>` = emitted
                             items then `Ok`, `e<hex>:<items>` = emitted items then the parser's error
                             (hex of its message); items `,`-separated or `_`;  `P:_` = no step
 * chain    `-` or adapters joined by `/`: `fi.m.r ft.m.r fq.m.r` (filter_items/_triples/_quads, keep iff
            `v mod m ≠ r`), `mi.F mt.F mq.F` (map_*), `xi.m.r.F xt.m.r.F xq.m.r.F` (filter_map_*),
-           `tq` (to_quads), `tt` (to_triples); `F` = `a<k>` (+k) | `Q<k>g<g>` (+k, to quad of graph g) |
+           `tq` (to_quads), `tt` (to_triples); a map / filter_map adapter followed by `!` is followed by
+           `.into_iter()` (at most one per chain); `F` = `a<k>` (+k) | `Q<k>g<g>` (+k, to quad of graph g) |
            `T<k>` (+k, to triple)
 * consumer `try.<j|->.<e>` recording closure through try_for_each_item, failing on call j with payload e;
            `for` for_each_item; `vec` collect into Vec; `lg`/`fg` collect into Light/Fast graph|dataset;
@@ -73,7 +75,7 @@ def parseSrc : List Char → Option Src
     if r == ['_'] then some (.iter []) else ((splitOn ',' r).mapM parseIterEv).map .iter
   | 'J' :: ':' :: r =>   -- the same, announced as an iterator of quads
     if r == ['_'] then some (.iter []) else ((splitOn ',' r).mapM parseIterEv).map .iter
-  | 'P' :: ':' :: r =>
+  | 'P' :: ':' :: r | 'C' :: ':' :: r | 'D' :: ':' :: r =>   -- parser steps / synthetic chunked source (triples / quads)
     if r == ['_'] then some (.script []) else ((splitOn ';' r).mapM parseStep).map .script
   | _ => none
 
@@ -114,8 +116,27 @@ def parseAdapter (cs : List Char) : Option Adapter :=
     | _ => none
   | _ => none
 
-def parseChain (cs : List Char) : Option (List Adapter) :=
-  if cs == ['-'] then some [] else (splitOn '/' cs).mapM parseAdapter
+/-- a chain, with at most one adapter marked `!` (= `.into_iter()` right after it) -/
+structure Chain where
+  c1 : List Adapter
+  iter : Option (Adapter × List Adapter)
+
+def Chain.all (c : Chain) : List Adapter :=
+  match c.iter with
+  | none => c.c1
+  | some (a, c2) => c.c1 ++ a :: c2
+
+def parseChain (cs : List Char) : Option Chain :=
+  if cs == ['-'] then some ⟨[], none⟩ else do
+    let toks := splitOn '/' cs
+    let marked := toks.map fun t => (t.getLast? == some '!', if t.getLast? == some '!' then t.dropLast else t)
+    let ads ← marked.mapM fun (m, t) => (parseAdapter t).map fun a => (m, a)
+    let pre := ads.takeWhile (fun x => !x.1)
+    match ads.drop pre.length with
+    | [] => some ⟨pre.map (·.2), none⟩
+    | (_, a) :: rest =>
+      if rest.any (·.1) || !a.hasIntoIter then none
+      else some ⟨pre.map (·.2), some (a, rest.map (·.2))⟩
 
 inductive Consumer where
   | try_ (failAt : Option Nat) (payload : String)
@@ -254,12 +275,17 @@ def handle (line : String) : String :=
     match parseSrc src.toList, parseChain chain.toList, parseConsumer cons.toList with
     | some src, some c, some cons =>
       let stepMode := mode == "s"
-      let out := match src with
-        | .iter rs => runConsumer (applyChain c iterSource) rs stepMode cons
-        | .script sc => runConsumer (applyChain c rioSource) sc stepMode cons
       let sc := match src with
         | .iter rs => rs.map Ev.ofResult
         | .script sc => sc
+      let out := match c.iter, src with
+        | none, .iter rs => runConsumer (applyChain c.c1 iterSource) rs stepMode cons
+        | none, .script sc => runConsumer (applyChain c.c1 rioSource) sc stepMode cons
+        -- `.into_iter()`: the buffering iterator over the batch source (an iterator of `Result`s is the
+        -- batch source with one-item steps: lemma `iter_tryForSome`), used as a `Source` under `c2`
+        | some (a, c2), _ =>
+          runConsumer (applyChain c2 (intoIterSource (applyChain c.c1 rioSource) a)) ⟨sc, []⟩ stepMode cons
+      let c := c.all
       -- oracle: the consumer fed directly with what the chain means on the delivered items
       let spec := runConsumer specSource (some (chainItems c (Ev.itemsOf sc), Ev.errorOf sc)) false cons
       reply (renderOut "" out ++ (renderOut "o." { spec with steps := none }))
